@@ -135,6 +135,7 @@ type c09KeyInfo struct {
 }
 
 type c09Scenario struct {
+	lastMask int // root mask of the last successful reload
 	rt       *rapid.T
 	rec      *vfstat.Recorder
 	tb       *c09TB
@@ -217,7 +218,7 @@ func c09Run(outer *testing.T, rt *rapid.T, rec *vfstat.Recorder, forceTyp int) {
 	sc.winDesc = fmt.Sprintf("w%d/%d", wi, si)
 	logKey := rapid.IntRange(0, 3).Draw(rt, "logKey")
 	sc.roots = rapid.SliceOfNDistinct(rapid.IntRange(0, 7), 2, 3, rapid.ID[int]).Draw(rt, "roots")
-	if rapid.IntRange(0, 2).Draw(rt, "rekeyedTwinRoot") == 1 {
+	if rapid.IntRange(0, 1).Draw(rt, "rekeyedTwinRoot") == 1 {
 		// root id+8 is root id re-keyed: the same subject name and extensions, another key (a re-issued root)
 		sc.roots = append(sc.roots, sc.roots[0]+8)
 		rec.Add("scenarios-with-rekeyed-twin-root", 1)
@@ -295,6 +296,13 @@ func (sc *c09Scenario) reload(nonEmpty bool) {
 		lo = 1
 	}
 	mask := rapid.IntRange(lo, 1<<len(sc.roots)-1).Draw(rt, "rootMask")
+	if n := len(sc.roots); n >= 3 && sc.roots[n-1] == sc.roots[0]+8 && sc.lastMask != 0 && rapid.IntRange(0, 2).Draw(rt, "swapTwin") > 0 {
+		// a root is replaced by its re-keyed twin (or back): same set of subject names, another certificate
+		if a, b := sc.lastMask&1 != 0, sc.lastMask&(1<<(n-1)) != 0; a != b {
+			mask = sc.lastMask ^ (1 | 1<<(n-1))
+			sc.rec.Add("reloads-swapping-a-root-for-its-rekeyed-twin", 1)
+		}
+	}
 	variant := rapid.IntRange(0, 3).Draw(rt, "pemVariant")
 	var sel []int
 	for i, id := range sc.roots {
@@ -340,6 +348,7 @@ func (sc *c09Scenario) reload(nonEmpty bool) {
 			sc.accepted[id] = true
 		}
 		sc.lastPEM = bytes.Clone(buf.Bytes())
+		sc.lastMask = mask
 		sc.rec.Add(fmt.Sprintf("reload-to-%d-roots", len(sel)), 1)
 	}
 	sc.rec.Add("reloads", 1)
